@@ -276,6 +276,12 @@ Definition max_timeout (T : list ispec) : Z :=
 Definition icase_monitor (k : icase) : bool :=
   let n := List.length (ic_specs k) in
   (if ic_ok k then ic_all_defined k else true) &&
+  (* a block that cannot be initialised: its failing init_regular was called => no success *)
+  (if ic_ok k then
+     forallb (fun b => match is_regular (spec_of (ic_specs k) b) with
+                       | GRaises => Nat.eqb (count_call (CRegular b) (ic_log k)) 0
+                       | _ => true end) (seq 0 n)
+   else true) &&
   forallb (fun b =>
     Nat.leb (count_call (CRestore b) (ic_log k)) 1 && Nat.leb (count_call (CRegular b) (ic_log k)) 1 &&
     Nat.leb (count_call (CFromValue b) (ic_log k)) 1 && Nat.leb (count_call (CAsync b) (ic_log k)) 1 &&
